@@ -33,6 +33,13 @@ chk("C12", "exploration", T + "conservation audit: full scan of the simulated di
 chk("C14", "exploration", T + "version-API audit for every version number 0..latest+1 after every structural step, live and on a freshly opened handle",
     "Histories with no-op commits, tiny trees, pruning, rollback, re-opening at older versions and identical/different re-commits; VersionExists/AvailableVersions/GetImmutable/LoadVersion/GetVersioned/GetLatestVersion vs R1's contiguous range before and after a clean restart; commit numbering and re-commit semantics in the step oracle.", N, "DESIGN.md §5 C14")
 
+chk("C04", "exploration", T + "full audit of every later version (contents, hashes, ICS-23 proofs, version APIs) after every deletion request, before and after a simulated clean restart; byte-identical disk for rejected requests",
+    "Histories biased to reference roots, empty versions, single-leaf roots reused by later trees and rollbacks; DeleteVersionsTo with arbitrary targets, flush thresholds that split one deletion over several physical batches, Exporters pinning versions.", N + " Synchronous pruning only (async pruning is C06).", "DESIGN.md §5 C04")
+chk("C09", "exploration", T + "from the first rollback on, every read/hash/version API/raw-disk audit is compared with models that are by construction the history that ended at v",
+    "Histories with discards, LoadVersionForOverwriting and DeleteVersionsFrom+reload for every kind of target, repeated and after pruning, followed by arbitrary continuations; real MemDB/GoLevelDB in a share of runs. The real 'twin' of DESIGN.md is subsumed: R1/R2 are the never-rolled-back history, and the raw-disk audit shows nothing of the erased versions survives.", N, "DESIGN.md §5 C09")
+chk("C15", "exploration", T + "normal-form change sets computed from the versioned-map model vs TraverseStateChanges; SaveChangeSet and full replay into an empty tree",
+    "Histories with repeated writes of one key per version, no-op and empty versions, pruning; every extracted change set whose predecessor is retained is compared with R1's normal form; replay of all change sets reproduces contents (and hashes for normal-form runs). No fault or schedule dimension.", N, "DESIGN.md §5 C15")
+
 NOT_YET = {
 }
 
